@@ -441,6 +441,8 @@ def f_ite(g, a, b):
         return a
     a = force(a)
     b = force(b)
+    if isinstance(a, FFP) or isinstance(b, FFP):
+        return FFP(z3.If(g, to_fp(a), to_fp(b)))
     if isinstance(a, float) and isinstance(b, float) and (a == b):
         return a
     ia = a.v if isinstance(a, FInt) else (int(a) if is_intfloat(a) else None)
@@ -454,7 +456,42 @@ def f_ite(g, a, b):
 _fc = [None]
 
 
+F64 = z3.Float64()
+RNE = z3.RNE()
+
+
+def to_fp(v):
+    v = force(v)
+    if isinstance(v, FFP):
+        return v.t
+    if isinstance(v, float):
+        return z3.FPVal(v, F64)
+    if isinstance(v, FInt):
+        return z3.fpSignedToFP(RNE, tobv(v.v, 64), F64)
+    raise Unsupported('to_fp %r' % (v,))
+
+
+def fp_binop(op, a, b):
+    ta, tb = to_fp(a), to_fp(b)
+    if op == '+':
+        return FFP(z3.fpAdd(RNE, ta, tb))
+    if op == '-':
+        return FFP(z3.fpSub(RNE, ta, tb))
+    if op == '*':
+        return FFP(z3.fpMul(RNE, ta, tb))
+    if op == '/':
+        return FFP(z3.fpDiv(RNE, ta, tb))
+    raise Unsupported('fp op ' + op)
+
+
+def fp_cmp(op, a, b):
+    ta, tb = to_fp(a), to_fp(b)
+    return {'<': z3.fpLT, '<=': z3.fpLEQ, '>': z3.fpGT, '>=': z3.fpGEQ, '==': z3.fpEQ, '!=': z3.fpNEQ}[op](ta, tb)
+
+
 def f_binop(fc, op, a, b, ex=None):
+    if isinstance(a, FFP) or isinstance(b, FFP):
+        return fp_binop(op, a, b)
     if isinstance(a, LazySel) and not isinstance(b, LazySel) and op in ('+', '-') and a._forced is None:
         return LazySel(a.idx, [f_binop(fc, op, c, b, ex) for c in a.cells], a.kind, a.w, a.signed)
     a = force(a)
@@ -503,6 +540,8 @@ def f_binop(fc, op, a, b, ex=None):
 def f_cmp(fc, op, a, b):
     a = force(a)
     b = force(b)
+    if isinstance(a, FFP) or isinstance(b, FFP):
+        return fp_cmp(op, a, b)
     if isinstance(a, float) and isinstance(b, float):
         return {'==': a == b, '!=': a != b, '<': a < b, '<=': a <= b, '>': a > b, '>=': a >= b}[op]
     # integer valued float against a concrete float: exact integer comparison
@@ -613,6 +652,8 @@ def affine_of(fc, t, depth=0):
 
 def f_neg(fc, a):
     a = force(a)
+    if isinstance(a, FFP):
+        return FFP(z3.fpNeg(a.t))
     if isinstance(a, float):
         return -a
     if isinstance(a, FInt):
